@@ -12,7 +12,7 @@ class SimCompareError(Exception):
 
 
 class _Hook(object):
-    __slots__ = ("count", "fire_at", "action", "fired", "enabled")
+    __slots__ = ("count", "fire_at", "action", "fired", "enabled", "every")
 
     def __init__(self):
         self.reset()
@@ -23,13 +23,17 @@ class _Hook(object):
         self.action = None
         self.fired = 0
         self.enabled = False
+        self.every = False
 
-    def arm(self, n, action):
+    def arm(self, n, action, every=False):
+        """action() at the n-th comparison from now (every=True: at the
+        n-th and at every later one)"""
         self.count = 0
         self.fire_at = n
         self.action = action
         self.fired = 0
         self.enabled = True
+        self.every = every
 
     def counting(self):
         self.count = 0
@@ -37,11 +41,13 @@ class _Hook(object):
         self.action = None
         self.fired = 0
         self.enabled = True
+        self.every = False
 
     def disarm(self):
         self.enabled = False
         self.fire_at = 0
         self.action = None
+        self.every = False
 
 
 HOOK = _Hook()
@@ -54,8 +60,16 @@ def _tick():
         if h.count == h.fire_at:
             h.fired += 1
             act = h.action
-            h.fire_at = 0
-            act()
+            if h.every:
+                h.fire_at = h.count + 1
+                h.enabled = False       # (not from inside the action)
+                try:
+                    act()
+                finally:
+                    h.enabled = h.action is not None
+            else:
+                h.fire_at = 0
+                act()
 
 
 class HK(object):
